@@ -155,6 +155,26 @@ fn all_inputs(dir: &Path) -> Vec<Input> {
         std::fs::write(&p, d.finish().expect("synth")).expect("write");
         v.push(Input { name: "generated/odd-stack-empty-streams".into(), path: p, kind: InputKind::Dump });
     }
+    {
+        // a macOS dump with a boot-args stream (and one thread, so that it processes)
+        use minidump_synth as synth;
+        use test_assembler::{Endian, Section};
+        let e = Endian::Little;
+        let stack = synth::Memory::with_section(Section::with_endian(e).append_repeated(0, 0x40), 0x7000_0000);
+        let ctx = synth::amd64_context(e, 0x40_1000, 0x7000_0008);
+        let ba = synth::DumpString::new("-v debug=0x144 keepsyms=1", e);
+        let ty = minidump::format::MINIDUMP_STREAM_TYPE::MozMacosBootargsStream as u32;
+        let d = synth::SynthMinidump::with_endian(e)
+            .add_system_info(synth::SystemInfo::new(e).set_processor_architecture(9).set_platform_id(0x8101))
+            .add_thread(synth::Thread::new(e, 1, &stack, &ctx))
+            .add_memory(stack)
+            .add(ctx)
+            .add_stream(synth::SimpleStream { stream_type: ty, section: Section::with_endian(e).D32(ty).D64(&synth::DumpSection::file_offset(&ba)) })
+            .add(ba);
+        let p = dir.join("mac-boot-args.dmp");
+        std::fs::write(&p, d.finish().expect("synth")).expect("write");
+        v.push(Input { name: "generated/mac-boot-args".into(), path: p, kind: InputKind::Dump });
+    }
     for (name, _b) in vh::seeds::corpus_seeds() {
         let n = name.trim_start_matches("corpus/").to_string();
         if n != "test.dmp" && n != "linux-mini.dmp" {
@@ -363,6 +383,13 @@ fn run_cfg(sh: &Shared, ii: usize, cfg: &Cfg, l: &mut Local) {
         args.push("--symbols-path".into());
         args.push(empty_dir.display().to_string());
     }
+    // a report file that already exists (left by an earlier, longer report) is REPLACED, not written over in place
+    if cfg.outfile {
+        std::fs::write(&of, vec![b'Z'; 300_000]).expect("pre-existing output file");
+    }
+    if cfg.mode == 3 {
+        std::fs::write(&cy, vec![b'Z'; 300_000]).expect("pre-existing cyborg file");
+    }
     let server = if cfg.symmode == 3 { Some(start_404_server(cfg.delay_ms)) } else { None };
     if let Some(port) = server {
         args.push("--symbols-url".into());
@@ -394,9 +421,11 @@ fn run_cfg(sh: &Shared, ii: usize, cfg: &Cfg, l: &mut Local) {
         return;
     }
     let code = code.unwrap_or(-1);
-    let primary: Vec<u8> = if cfg.outfile { std::fs::read(&of).unwrap_or_default() } else { out.stdout.clone() };
+    // a file still holding exactly its earlier content was not written to at all
+    let untouched = |b: &Vec<u8>| b.len() == 300_000 && b.iter().all(|c| *c == b'Z');
+    let primary: Vec<u8> = if cfg.outfile { std::fs::read(&of).ok().filter(|b| !untouched(b)).unwrap_or_default() } else { out.stdout.clone() };
     let diag: Vec<u8> = if cfg.logfile { [out.stderr.clone(), std::fs::read(&lf).unwrap_or_default()].concat() } else { out.stderr.clone() };
-    let cyb = std::fs::read(&cy).ok();
+    let cyb = std::fs::read(&cy).ok().filter(|b| !untouched(b));
     l.outcome(&format!("{} -> exit {code}", match inp.kind { InputKind::Dump => "dump", _ => "bad-input" }));
     l.distinct(&(ii, cfg.mode, cfg.brief, cfg.pretty, cfg.feat, cfg.symmode, code, hash_of(&primary)));
 
